@@ -76,7 +76,7 @@ def cubic_bspline_control_point_grid(grid: Grid, stride: ScalarOrTuple[int]) -> 
     return Grid(
         size=size,
         origin=grid.index_to_world(-s),
-        spacing=grid.spacing(),
+        spacing=grid.spacing() * s,
         direction=grid.direction(),
         device=grid.device,
         align_corners=True,
